@@ -274,6 +274,16 @@ class EmitHook:
         return t.encode("utf-16", "surrogatepass").decode("utf-16", "replace")
 
 
+def long_group(rng):
+    """a brace group far longer than examples use; a command inside it belongs to the group"""
+    n = rng.choice([rng.randint(40, 120), rng.randint(250, 262), rng.randint(300, 700), rng.randint(1020, 1030),
+                    rng.randint(4090, 4100)])
+    fill = "".join(rng.choice(["word ", "x", " ", "12", "abc"]) for _ in range(n))[:n]
+    if rng.random() < 0.5:
+        fill += rng.choice([" 5 \\pm 2", "\\alpha", " \\beta x"])
+    return "{" + fill + "}"
+
+
 def emitter_checks(ctx, rng, hook, n):
     from rtflite.row import TextContent
     T = table()
@@ -296,7 +306,9 @@ def emitter_checks(ctx, rng, hook, n):
             # conversion on: a SUPPORTED command directly followed by a brace group is looked up together
             # with the group; when that lookup misses (empty group, unknown argument) the text stays verbatim
             known = rng.choice([c for c in T if c[1:].isalpha()])
-            grp = rng.choice(["{}", "{}", "{x}", "{ab c}", "{1}"])
+            grp = rng.choice(["{}", "{}", "{x}", "{ab c}", "{1}", long_group(rng)])
+            if len(grp) > 20:
+                ctx.count("long_brace_groups_at_emitter")
             if (known + grp) in T:
                 continue
             pre = "".join(rng.choice(plain) for _ in range(rng.randint(0, 5)))
@@ -317,7 +329,9 @@ def emitter_checks(ctx, rng, hook, n):
             if name in T or name in ("\\pagenumber", "\\totalpage", "\\pagefield", "\\super", "\\sub", "\\line",
                                      "\\geq", "\\leq", "\\chpgn"):
                 continue
-            grp = rng.choice(["", "", "{x}", "{ab c}", "{}"])
+            grp = rng.choice(["", "", "{x}", "{ab c}", "{}", long_group(rng)])
+            if len(grp) > 20:
+                ctx.count("long_brace_groups_at_emitter")
             if (name + grp) in T:
                 continue
             pre = "".join(rng.choice(plain) for _ in range(rng.randint(0, 6)))
@@ -392,6 +406,27 @@ def rand_text(rng):
         else:
             toks.append(rng.choice(SPECIALS))
     return "".join(toks)
+
+
+def scale_text(rng):
+    """sizes that small examples never reach: a brace group of several hundred characters after a command,
+    a text of a few thousand characters, a hundred commands in one text"""
+    T = [c for c in table() if c[1:].isalpha()]
+    r = rng.random()
+    if r < 0.5:
+        n = rng.choice([rng.randint(1, 30), rng.randint(250, 262), rng.randint(300, 700), rng.randint(1020, 1030),
+                        rng.randint(4090, 4100)])
+        fill = []
+        while sum(map(len, fill)) < n:
+            fill.append(rng.choice(["abc ", "x", " ", "12", rng.choice(T) + " ", ">=", "<=", "^", "_", "\\unknowncmd "]))
+        group = "".join(fill)[:n].replace("}", ")")
+        if group.endswith("\\"):
+            group = group[:-1] + "."
+        head = rng.choice([rng.choice(T), "\\unknowncmd", "\\mathbb", "\\text"])
+        return rng.choice(["", "a ", "5 "]) + head + "{" + group + "}" + rng.choice(["", " b", rng.choice(T)])
+    if r < 0.8:
+        return " ".join(rand_text(rng) for _ in range(rng.randint(40, 200)))
+    return "".join(rng.choice(T) + rng.choice([" ", ",", "1"]) for _ in range(rng.randint(100, 300)))
 
 
 COMPONENTS = ["title", "subline", "colheader", "body", "footnote", "source", "page_header", "page_footer"]
@@ -533,6 +568,10 @@ def run_shard(desc, ctx):
             texts = [rand_text(rng) for _ in range(desc["n"])]
             for i in range(0, len(texts), 1000):
                 check_body_batch(ctx, texts[i:i + 1000], True, "random mixed")
+            big = [scale_text(rng) for _ in range(max(20, desc["n"] // 40))]
+            ctx.count("long_texts_and_groups", len(big))
+            for i in range(0, len(big), 50):
+                check_body_batch(ctx, big[i:i + 50], True, "long text / long brace group")
             for _ in range(desc["components"]):
                 check_components(ctx, rng)
                 check_toggle_pairs(ctx, rng, hook)
